@@ -16,6 +16,10 @@ def answer (line : String) : String :=
     | "ao" => aoLine toks
     | "ps" => psLine toks
     | "qspy" => qspyLine toks
+    | "tocode" => tocodeLine toks
+    | "single" => singleLine toks
+    | "reg" => regLine toks
+    | "tsa" => tsaLine toks
     | _ => "bad-family"
   | [] => "bad-line"
 
